@@ -39,9 +39,11 @@ def specF2R (secs : List Sec) (fo : Nat) : Out Nat :=
     else .err .bounds
 
 /-- Well-formed section table for the inversion statement: no wrap-around, raw data and virtual
-extents beyond the headers, raw extents pairwise disjoint, virtual extents pairwise disjoint. -/
+extents beyond the headers, raw extents pairwise disjoint, virtual extents pairwise disjoint.
+A section WITHOUT raw data (`SizeOfRawData = 0`: an ordinary `.bss`, whose `PointerToRawData` is
+conventionally 0) stores nothing, so nothing is asked of its `PointerToRawData`. -/
 def WF (soh : Nat) (secs : List Sec) : Prop :=
-  (∀ s ∈ secs, s.va + max s.vs s.rs < 4294967296 ∧ s.prd + s.rs < 4294967296 ∧ soh ≤ s.prd ∧ soh ≤ s.va) ∧
+  (∀ s ∈ secs, s.va + max s.vs s.rs < 4294967296 ∧ s.prd + s.rs < 4294967296 ∧ (s.rs = 0 ∨ soh ≤ s.prd) ∧ soh ≤ s.va) ∧
   secs.Pairwise (fun a b => (a.prd + a.rs ≤ b.prd ∨ b.prd + b.rs ≤ a.prd) ∧
                             (a.va + max a.vs a.rs ≤ b.va ∨ b.va + max b.vs b.rs ≤ a.va))
 
